@@ -59,6 +59,7 @@ def run(ctx, rep):
     # G8: tree accessors never hand out, and tree code never modifies, shared mutable state
     rep.run(RA.rule_mutate_only_fresh, ctx, rep, "G8", "gtwrap/", G8_EXEMPT, min_sites=60)
     rep.run(RG.rule_word_boundary, ctx, rep, "G9")
+    rep.run(RG.rule_quoted_literals_are_tokens, ctx, rep, "G12")
     rep.run(RT.rule_lists_kept_whole, ctx, rep, "G10")
     rep.run(RT.rule_ctor_params_stored, ctx, rep, "G11")
     rep.require_min("G7", 2)
